@@ -109,6 +109,17 @@ def run_case(desc):
             require(np.array_equal(np.asarray(v, float), np.asarray(res.values, float)), "sum_values_over", "differs from sum_over")
     elif op == "cumsum":
         l = letters[0]
+        if desc.get("narrow"):
+            # counts stored in a narrow integer (or boolean) type whose running totals leave that type's range: the
+            # accumulated values are what matters, not the storage type of the input
+            nt = desc["narrow"]
+            base = {"int32": 1_000_000_000, "int16": 20_000, "uint8": 150, "bool": 0}[nt]
+            mod = {"int32": 1000, "int16": 1000, "uint8": 100, "bool": 2}[nt]
+            mx = mx.map(lambda v: int(base + (int(v) % mod)) if nt != "bool" else int(v) % 2)
+            x = fd.FlodymArray(dims=x.dims, values=build.ndarray_from_fn(list(mx.letters), mx.items, lambda lab: mx.get(lab), np.dtype(nt)))
+            snap = build.snapshot(x)
+            eq = lambda a, b: int(a) == int(b)
+            classes.append(f"narrow-storage:{nt}")
         res = x.cumsum(l)
         exp = mx.cumsum(l)
         d = model.diff(exp, MArr.from_flodym(res), eq)
@@ -248,7 +259,11 @@ def cases(draw, mode, max_dims=4, max_len=3):
         k = draw(st.sampled_from([1e-15, 1e-13, 1e-9, 1e7]))
         x = dict(x, vals=[v * k for v in x["vals"]])
     again = draw(st.sampled_from([None, None, "values", "setitem", "slice0"])) if mode != "sym" else None
-    return {"universe": U, "x": x, "op": op, "dims": dims, "naming": naming, "bad": bad, "again": again}
+    d_ = {"universe": U, "x": x, "op": op, "dims": dims, "naming": naming, "bad": bad, "again": again}
+    if op == "cumsum" and mode == "coded" and not bad and draw(st.booleans()):
+        d_["narrow"] = draw(st.sampled_from(["int32", "int16", "uint8", "bool"]))
+        d_["again"] = None
+    return d_
 
 
 class _F(Facet):
